@@ -180,6 +180,82 @@ theorem euler_step_pos (y f : List α) (ub : List (Option α)) (h : α)
     · exact zero_lt_one
     · exact hv
 
+/-- **the upper-bound side of the loop is redundant for conserved dynamics.**  Suppose every step that keeps the state
+    non-negative also keeps it below the bounds (`hinv` — exactly what `upper_bound_valid` gives for a balanced system,
+    because the Euler update `y + t·f` carries the element totals of `y`: `B·f = 0`, C05 `invariants_exact`).  Then the
+    branch `fcomp > 0 → (upper_bounds[idx] − y[idx]) / fcomp` never decides the result: the callback returns the same step
+    as the loop that only watches the lower bounds (`ub0` = all `inf`).  (Consequence for testing: deleting that branch is
+    not observable on admissible states; the harness therefore also compares model and code on states with a negative
+    entry, where the branch does decide.) -/
+theorem euler_step_upper_side_redundant (y f : List α) (ub ub0 : List (Option α)) (h h0 : α)
+    (hrun : maxEulerStep y ub f = .ok h) (hrun0 : maxEulerStep y ub0 f = .ok h0)
+    (hub0 : ∀ (i : ℕ) b, ub0[i]? = some b → b = none)
+    (hy : ∀ (i : ℕ) yi, y[i]? = some yi → 0 ≤ yi)
+    (hinv : ∀ t, 0 ≤ t → (∀ (i : ℕ) yi fi, y[i]? = some yi → f[i]? = some fi → 0 ≤ yi + t * fi) →
+      ∀ (i : ℕ) yi fi u, y[i]? = some yi → f[i]? = some fi → ub[i]? = some (some u) → yi + t * fi ≤ u) :
+    h = h0 := by
+  have hsafe0 := euler_step_safe y f ub0 h0 hrun0 hy
+    (fun i yi u _ hu => by have := hub0 i _ hu; cases this)
+  obtain ⟨h0nn, h0le, hbox0⟩ := hsafe0
+  have hU := hinv h0 h0nn (fun i yi fi hyi hfi => (hbox0 i yi fi hyi hfi).1)
+  obtain ⟨bs, m, hb, hm, rfl⟩ := maxEulerStep_ok hrun
+  obtain ⟨bs0, m0, hb0, hm0, rfl⟩ := maxEulerStep_ok hrun0
+  obtain ⟨hlen, hs⟩ := stepBounds_spec y ub f 0 bs hb
+  obtain ⟨hlen0, hs0⟩ := stepBounds_spec y ub0 f 0 bs0 hb0
+  obtain ⟨hmem, hle⟩ := minInf_spec hm
+  obtain ⟨hmem0, hle0⟩ := minInf_spec hm0
+  apply le_antisymm
+  · -- the full loop is below the lower-side-only loop
+    apply le_capAtOne (capAtOne_le_one m)
+    intro v hv
+    subst hv
+    obtain ⟨k, hk⟩ := List.mem_iff_getElem?.mp hmem0
+    have hkl : k < f.length := by
+      have := (List.getElem?_eq_some_iff.mp hk).1
+      omega
+    have hfk := List.getElem?_eq_getElem hkl
+    obtain ⟨b, hb1, hb2⟩ := hs0 k f[k] hfk
+    rw [hk] at hb1
+    cases hb1
+    simp only [Nat.zero_add] at hb2
+    rcases stepBoundAt_some hb2 with ⟨_, yi, u, _, hui, _⟩ | ⟨hneg, yi, hyi, rfl⟩
+    · have := hub0 k _ hui
+      cases this
+    · obtain ⟨b', hb1', hb2'⟩ := hs k f[k] hfk
+      simp only [Nat.zero_add] at hb2'
+      rcases stepBoundAt_ok hb2' with ⟨hf0, _⟩ | ⟨hpos, _⟩ | ⟨_, yi', hyi', hbv⟩
+      · rw [hf0] at hneg; exact absurd hneg (lt_irrefl _)
+      · exact absurd hneg (not_lt.mpr hpos.le)
+      · rw [hyi] at hyi'
+        cases hyi'
+        subst hbv
+        exact capAtOne_le_of_optLe (hle _ (List.mem_of_getElem? hb1'))
+  · apply le_capAtOne h0le
+    intro v hv
+    subst hv
+    obtain ⟨k, hk⟩ := List.mem_iff_getElem?.mp hmem
+    have hkl : k < f.length := by
+      have := (List.getElem?_eq_some_iff.mp hk).1
+      omega
+    have hfk := List.getElem?_eq_getElem hkl
+    obtain ⟨b, hb1, hb2⟩ := hs k f[k] hfk
+    rw [hk] at hb1
+    cases hb1
+    simp only [Nat.zero_add] at hb2
+    rcases stepBoundAt_some hb2 with ⟨hpos, yi, u, hyi, hui, rfl⟩ | ⟨hneg, yi, hyi, rfl⟩
+    · have := hU k yi f[k] u hyi hfk hui
+      rw [le_div_iff₀ hpos]
+      linarith
+    · obtain ⟨b', hb1', hb2'⟩ := hs0 k f[k] hfk
+      simp only [Nat.zero_add] at hb2'
+      rcases stepBoundAt_ok hb2' with ⟨hf0, _⟩ | ⟨hpos, _⟩ | ⟨_, yi', hyi', hbv⟩
+      · rw [hf0] at hneg; exact absurd hneg (lt_irrefl _)
+      · exact absurd hneg (not_lt.mpr hpos.le)
+      · rw [hyi] at hyi'
+        cases hyi'
+        subst hbv
+        exact capAtOne_le_of_optLe (hle0 _ (List.mem_of_getElem? hb1'))
+
 /-- a component ON the bound it moves towards makes the advertised step zero (here: `y₁ = 0`, `f₁ < 0`) -/
 theorem euler_step_zero_on_bound_witness :
     maxEulerStep [(1 : ℚ), 0] [some 1, some 2] [1 / 2, -1] = .ok 0 := by decide +kernel
